@@ -125,6 +125,7 @@ def build(env):
     st['collisions'] = _dummy_module('collisions')
     st['matplotlib'] = _dummy_module('matplotlib')
     st['matplotlib.pyplot'] = _dummy_module('matplotlib.pyplot')
+    st['matplotlib'].pyplot = st['matplotlib.pyplot']
     rnd = _mod('random')
     rnd.hook = [None]
 
